@@ -97,11 +97,20 @@ class Interp:
         fails = []
         ts = op["T"]
         arg = ts[0] if op.get("scalar") and len(ts) == 1 else list(ts)
+        form = op.get("form", "list")
+        before = None
+        if form == "array" and not op.get("scalar"):
+            arg = np.array(ts, dtype=float)  # a float64 array: np.asarray() inside the routine will not copy it
+            before = arg.copy()
+        elif form == "own-column":
+            arg = self.pt.col["T"]  # the table's own temperature column (a view of its buffer), as a caller holding it would pass it
         exp_new = self.expect_added(ts)
         ok, ret = call_sut(self.pt.insert_temperature_interval, arg)
         self.n_calls += 1
         if not ok:
             return [Fail("C08.sut_exception:" + ret, f"insert_temperature_interval({arg}) raised {ret}: {call_sut.last_message}")]
+        if form == "own-column":
+            arg = "<own T column>"
         self.rows = sorted(self.rows + exp_new, reverse=True)
         if ret != len(exp_new):
             fails.append(Fail("C08.return_count", f"insert({arg}) returned {ret!r} but {len(exp_new)} row(s) are new ({exp_new})"))
@@ -270,8 +279,8 @@ def machine(col, tier):
             self.init = init
             self.it = Interp(init)
 
-        @rule(elems=st.lists(ELEM, min_size=0, max_size=6), order=st.randoms(use_true_random=False))
-        def insert_list(self, elems, order):
+        @rule(elems=st.lists(ELEM, min_size=0, max_size=6), order=st.randoms(use_true_random=False), form=st.sampled_from(["list", "list", "array"]))
+        def insert_list(self, elems, order, form="list"):
             if self.dead or self.init is None:
                 return
             ts, kinds = resolve(self.it.rows, elems)
@@ -280,7 +289,7 @@ def machine(col, tier):
             ts = [ts[i] for i in idx]
             if ts != sorted(ts, reverse=True) and len(ts) > 1:
                 kinds.append("unsorted-request")
-            op = {"op": "insert", "T": ts, "scalar": False, "kinds": sorted(set(kinds))}
+            op = {"op": "insert", "T": ts, "scalar": False, "kinds": sorted(set(kinds + (["request-as-array"] if form == "array" else []))), "form": form}
             self.record(op, self.it.step(op))
 
         @rule(elem=ELEM)
@@ -293,11 +302,11 @@ def machine(col, tier):
             op = {"op": "insert", "T": ts, "scalar": True, "kinds": sorted(set(kinds + ["scalar-request"]))}
             self.record(op, self.it.step(op))
 
-        @rule()
-        def reinsert_all_rows(self):
+        @rule(form=st.sampled_from(["list", "array", "own-column"]))
+        def reinsert_all_rows(self, form):
             if self.dead or self.init is None:
                 return
-            op = {"op": "insert", "T": list(self.it.rows), "scalar": False, "kinds": ["reinsert-all"]}
+            op = {"op": "insert", "T": list(self.it.rows), "scalar": False, "kinds": ["reinsert-all", "request-as-" + form], "form": form}
             self.record(op, self.it.step(op))
 
         def finalize(self, out):
